@@ -563,7 +563,7 @@ Definition aspec (m : list N) : bool :=
   negb (Spec.mem 0 m) && Spec.levels_ok (Spec.split_sl m []) && fst (Spec.share_ok_sep m).
 
 Lemma LR_finit : LR [] 0 finit.
-Proof. left. split; [reflexivity|]. unfold pos_start. cbn. auto. Qed.
+Proof. left. split; [reflexivity|]. unfold pos_start. cbn [has_one has_all last_sep finit]. auto. Qed.
 
 Lemma fin_plain prof n m l : Spec.starts Spec.share_prefix m = false -> m = map fst l ->
   fin prof n (frun 0 l finit) = Ok (negb (aspec m), if aspec m then snd (Spec.share_ok_sep m) else 0).
